@@ -6,6 +6,7 @@ import (
 
 	"github.com/ThreeDotsLabs/watermill"
 	"github.com/ThreeDotsLabs/watermill/message"
+	"github.com/ThreeDotsLabs/watermill/verifhook"
 	"github.com/pkg/errors"
 )
 
@@ -132,6 +133,7 @@ func (f *Forwarder) forwardMessage(msg *message.Message) error {
 		return errors.Wrap(err, "cannot unwrap message from an envelope")
 	}
 
+	verifhook.At("forwarder.forward.before_publish", msg.UUID)
 	if err := f.publisher.Publish(destTopic, unwrappedMsg); err != nil {
 		return errors.Wrap(err, "cannot publish a message")
 	}
